@@ -304,6 +304,50 @@ fn hf_model_lines(slot: usize, data: &[u8], lines: &mut Vec<String>) -> Option<(
     Some(())
 }
 
+/// The parsed fields of a SentencePiece source for the Lean model of the converter's vocabulary path
+/// (`SPT` / `SPP` lines) and the `CONVSP` request; small sources only (the list-based model is quadratic).
+fn sp_model_lines(slot: usize, data: &[u8], lines: &mut Vec<String>) -> Option<()> {
+    use prost::Message;
+    use sentencepiece_model::{ModelProto, Type};
+    let m = ModelProto::decode(data).ok()?;
+    if m.pieces.len() > 3000 {
+        return None;
+    }
+    if let Some(t) = &m.trainer_spec {
+        lines.push(format!(
+            "SPT {} {} {} {} {} {} {} {} {} {} {}",
+            slot,
+            t.unk_id() as u32,
+            t.bos_id() as u32,
+            t.eos_id() as u32,
+            t.pad_id() as u32,
+            hex(t.unk_piece().as_bytes()),
+            hex(t.bos_piece().as_bytes()),
+            hex(t.eos_piece().as_bytes()),
+            hex(t.pad_piece().as_bytes()),
+            hex(t.unk_surface().as_bytes()),
+            (t.model_type() as i32 == 2) as u8
+        ));
+        // other model types (word, char) are rejected by the converter
+        if t.model_type() as i32 != 1 && t.model_type() as i32 != 2 {
+            return None;
+        }
+    }
+    for p in &m.pieces {
+        let ty = match p.r#type() {
+            Type::Normal => "N",
+            Type::Unknown => "U",
+            Type::Control => "C",
+            Type::UserDefined => "D",
+            Type::Unused => "X",
+            Type::Byte => "B",
+        };
+        lines.push(format!("SPP {} {} {} {}", slot, p.piece.as_ref().map(|t| hex(t.as_bytes())).unwrap_or("~".into()), p.score().to_bits(), ty));
+    }
+    lines.push(format!("CONVSP {} :: OK", slot));
+    Some(())
+}
+
 fn src_lines(slot: usize, src: &[Src], lines: &mut Vec<String>) {
     for s in src {
         lines.push(format!(
@@ -376,6 +420,11 @@ fn source_case(slot: &mut usize, fmt: &str, name: &str, data: &[u8], out: &mut S
         }
         None => {
             lines.push(format!("IMPLEQ independent-parse {} {} :: DIFF the converter accepts a source that the independent parser cannot read", fmt, name));
+        }
+    }
+    if fmt == "sentencepiece" {
+        if sp_model_lines(this, data, &mut lines).is_some() {
+            out.count("sentencepiece_sources_through_the_model");
         }
     }
     if fmt == "tokenizers" {
